@@ -24,6 +24,14 @@ all) exactly as connection handlers do while the proxy is serving traffic.  Afte
 applied to a sweep of spellings against every listener the *history* says is running and an OS-level probe (bind ->
 EADDRINUSE) confirms is listening -- never against what ``listen_addrs`` reports -- and against the ports of listeners that
 were stopped (must not be refused any more).
+
+Repeated-attempt leg (real ConnectionHandler): for every spelling x listener shape x listener mode x transport the SAME
+``Server`` object is requested 3 times through the real ``ConnectionHandler`` -- (1) a probe layer re-issues the blocking
+``OpenConnection`` after every ``OpenConnectionCompleted`` with an error, via the real ``server_event`` dispatch, and (2) the
+real ``open_connection`` coroutine is awaited 3 times in a row -- with the ``server_connect`` hook answered by the real
+``Proxyserver.server_connect``.  ``asyncio.open_connection`` and ``mitmproxy_rs.udp.open_udp_connection`` are replaced by
+counting stubs: for a destination the reference calls a self-connect NO attempt may ever reach them, the first attempt must
+complete with the destination-unknown error and no later attempt may complete successfully.
 """
 import asyncio
 import errno
@@ -32,9 +40,14 @@ import logging
 import re
 import socket
 
+import mitmproxy_rs
 from mitmproxy import connection
 from mitmproxy.addons.proxyserver import Proxyserver
+from mitmproxy.proxy import commands
+from mitmproxy.proxy import events
+from mitmproxy.proxy import layer as mlayer
 from mitmproxy.proxy import mode_specs
+from mitmproxy.proxy import server as mserver
 from mitmproxy.proxy import server_hooks
 from mitmproxy.test import taddons
 
@@ -45,7 +58,8 @@ TECHNIQUE = "enumeration of destination spellings x listener configurations agai
 BUDGET = {"quick": (4_000, 14), "thorough": (300_000, 120)}
 WORKERS = {"quick": 2, "thorough": 16}
 REQUIRED = ["must_refuse", "must_not_refuse", "refused_some", "accepted_some", "undecided_total_only",
-            "runtime.histories", "runtime.concurrent_vets", "runtime.must_refuse", "runtime.must_not_refuse", "runtime.confirmed_listeners"]
+            "runtime.histories", "runtime.concurrent_vets", "runtime.must_refuse", "runtime.must_not_refuse", "runtime.confirmed_listeners",
+            "repeat_attempt_same_server", "repeat.first_attempt_refused", "repeat.no_dial_for_self_address", "repeat.non_self_dialled"]
 RULE = (
     "case = (destination host spelling, destination port, transport, listener set); all fixed spellings (localhost in 8 "
     "case/dot variants, 12 addresses of 127/8 incl. block edges, 6 spellings of ::1, 4 IPv4-mapped loopbacks, 0.0.0.0, ::, "
@@ -56,13 +70,21 @@ RULE = (
     "Runtime histories (about 1% of the random cases in quick): 2-4 real listeners (9 mode templates x 127.0.0.1/::1/all/localhost, "
     "harness-chosen free ports), 2-6 update steps (add/remove/restart) each under a vetting policy (every tick, alternate, on "
     "servers.changed, none), sweep of 14+ spellings x tcp/udp per running and per stopped listener after every step; distinct = "
-    "(listener mode/host kinds, policies, steps, restart); non-trivial = a listener was started while server_connect ran concurrently"
+    "(listener mode/host kinds, policies, steps, restart); non-trivial = a listener was started while server_connect ran concurrently. "
+    "Repeated attempts: every spelling x 4 listen shapes x 3 listener modes x tcp/udp (quick; thorough: all 11 x 5) runs 3 OpenConnection "
+    "attempts for one Server object through the real ConnectionHandler (server_event path and direct open_connection path) with "
+    "counting dial stubs"
 )
 ASSUMPTIONS = [
     "listen_addrs have the shape of socket.getsockname() results; the listener's transport is mode.transport_protocol",
     "a loopback destination while listening on one specific non-loopback interface is outside the statement (undecided)",
     "runtime leg: a listener counts as mitmproxy's own socket once the Servers.update call that started it has returned and until "
     "the update that removes it has returned; refusals during a start/stop in flight are not judged",
+    "repeated attempts: on the unchanged tree ConnectionHandler.server_event asserts that the target of an OpenConnection is not in "
+    "self.transports; a second OpenConnection for a refused Server object trips it ('mitmproxy has crashed!' is logged, the command is "
+    "dropped, the layer gets no completion). Nothing reaches the network, so this is accepted for C23 (never proxy back to own "
+    "listeners) and only counted (repeat.reattempt_stopped_by_handler); the missing completion is a robustness matter of C09/C10. "
+    "Decisive: no dial for a self-address on any attempt, first attempt completes with the refusal, no attempt succeeds",
 ]
 LEVEL_TEXT = (
     "The spelling classes named in the property are enumerated completely against every listener shape mitmproxy can "
@@ -394,6 +416,181 @@ async def run_history(ctx, r):
     return sig, stats["started_under_vetting"] > 0, {"leg": "runtime", "history": log[:6], "concurrent_server_connect_calls": stats["concurrent"]}
 
 
+# ---- repeated attempts for the same Server object through the real ConnectionHandler ----------------------------------------
+
+class _Writer:
+    def __init__(self):
+        self.closed = False
+
+    def get_extra_info(self, k, d=None):
+        return {"peername": ("192.0.2.10", 50123), "sockname": ("192.0.2.99", 8080)}.get(k, d)
+
+    def write(self, b):
+        pass
+
+    async def drain(self):
+        pass
+
+    def close(self):
+        self.closed = True
+
+    def is_closing(self):
+        return self.closed
+
+    def write_eof(self):
+        pass
+
+    def can_write_eof(self):
+        return True
+
+    async def wait_closed(self):
+        pass
+
+
+class _Reader:
+    def __init__(self):
+        self.eof = asyncio.Event()
+
+    async def read(self, n):
+        await self.eof.wait()
+        return b""
+
+
+class RetryLayer(mlayer.Layer):
+    """Asks for the same server connection again after every failed attempt, like DNSLayer / TCP-UDP layers after upstream-TLS-first."""
+
+    def __init__(self, context, srv, attempts, results, done):
+        super().__init__(context)
+        self.srv, self.attempts, self.results, self.done = srv, attempts, results, done
+
+    def _handle_event(self, event):
+        if isinstance(event, events.Start):
+            for k in range(self.attempts):
+                err = yield commands.OpenConnection(self.srv)
+                self.results.append(err)
+                if err is None:
+                    break
+            self.done.set()
+        elif isinstance(event, events.ConnectionClosed) and event.connection is self.context.client:
+            yield commands.CloseConnection(self.context.client)
+
+
+class Dials:
+    """Counting replacements of the two functions that reach the network."""
+
+    def __init__(self):
+        self.calls = []
+        self._tcp, self._udp = asyncio.open_connection, mitmproxy_rs.udp.open_udp_connection
+
+    def __enter__(self):
+        async def tcp(host, port, **kw):
+            self.calls.append(("tcp", host, port))
+            raise ConnectionRefusedError("connection refused (harness: no network)")
+
+        async def udp(host, port, **kw):
+            self.calls.append(("udp", host, port))
+            raise OSError("udp connect failed (harness: no network)")
+
+        asyncio.open_connection = tcp
+        mitmproxy_rs.udp.open_udp_connection = udp
+        return self
+
+    def __exit__(self, *a):
+        asyncio.open_connection = self._tcp
+        mitmproxy_rs.udp.open_udp_connection = self._udp
+
+
+async def _repeat_via_server_event(ps, opts, srv, attempts):
+    results, done = [], asyncio.Event()
+    rd, wr = _Reader(), _Writer()
+    h = mserver.SimpleConnectionHandler(rd, wr, opts, MODES["regular"], {"server_connect": ps.server_connect})
+    h.layer = RetryLayer(h.layer.context, srv, attempts, results, done)
+    task = asyncio.ensure_future(h.handle_client())
+    for _ in range(60):  # all attempts are synchronous apart from task switches
+        if done.is_set():
+            break
+        await asyncio.sleep(0)
+    finished = done.is_set()
+    rd.eof.set()
+    for _ in range(30):
+        if task.done():
+            break
+        await asyncio.sleep(0)
+    # a layer left paused on a dropped OpenConnection never closes the client connection: tear the handler down ourselves
+    me = asyncio.current_task()
+    for t in asyncio.all_tasks():
+        if t is not me and not t.done():
+            t.cancel()
+    await asyncio.gather(task, return_exceptions=True)
+    return results, finished
+
+
+async def _repeat_direct(ps, opts, srv, attempts):
+    rd, wr = _Reader(), _Writer()
+    h = mserver.SimpleConnectionHandler(rd, wr, opts, MODES["regular"], {"server_connect": ps.server_connect})
+    replies = []
+
+    async def capture(event):
+        if isinstance(event, events.OpenConnectionCompleted):
+            replies.append(event.reply)
+
+    h.server_event = capture  # type: ignore
+    for _ in range(attempts):
+        await asyncio.wait_for(h.open_connection(commands.OpenConnection(srv)), 10)
+    return replies
+
+
+def repeat_eval(ctx, loop, w, hclass, host, port, transport, servers_spec, attempts=3):
+    ps = Proxyserver()
+    stubs, listeners = [], []
+    for mname, lkey, lport in servers_spec:
+        addrs = mk_addrs(LISTEN[lkey], lport)
+        stubs.append(StubInstance(MODES[mname], addrs))
+        for a in addrs:
+            listeners.append((a[0], a[1], MODES[mname].transport_protocol))
+    ps.servers = stubs  # type: ignore
+    exp = ref_decision(host, port, transport, listeners)
+    outcome = []
+    for path in ("server_event", "direct"):
+        srv = connection.Server(address=(host, port), transport_protocol=transport)
+        wit = {"host": host, "port": port, "transport": transport, "listeners": listeners, "path": path, "attempts": attempts}
+        with Dials() as dials:
+            try:
+                if path == "server_event":
+                    results, finished = loop.run_until_complete(_repeat_via_server_event(ps, w.tctx.options, srv, attempts))
+                else:
+                    results, finished = loop.run_until_complete(_repeat_direct(ps, w.tctx.options, srv, attempts)), True
+            except asyncio.TimeoutError:
+                ctx.count("inconclusive_cases")
+                continue
+            except Exception as e:
+                ctx.violation("repeat:harness-or-handler-raises", {**wit, "exc": repr(e)})
+                continue
+        ctx.count("repeat_attempt_same_server")
+        wit.update(results=results, dials=dials.calls)
+        if path == "server_event" and not finished:
+            ctx.count("repeat.reattempt_stopped_by_handler")
+        if exp is True:
+            ctx.count("repeat.no_dial_for_self_address")
+            if dials.calls:
+                ctx.violation("repeat:dialled-own-listener", wit, mechanism=None)
+            ctx.count("repeat.first_attempt_refused")
+            if not results or not results[0] or "destination unknown" not in results[0].lower():
+                ctx.violation("repeat:first-attempt-not-refused", wit, mechanism=classify(hclass, host, listeners, transport, port))
+            if any(x is None for x in results):
+                ctx.violation("repeat:attempt-succeeded-for-self-address", wit)
+            if path == "direct" and any(not x or "destination unknown" not in x.lower() for x in results):
+                ctx.violation("repeat:later-attempt-not-refused", wit)
+        elif exp is False:
+            ctx.count("repeat.non_self_dialled")
+            if not dials.calls or (results and results[0] and "destination unknown" in results[0].lower()):
+                ctx.violation("repeat:refused-wrongly", wit)
+        else:
+            ctx.count("repeat.undecided_total_only")
+        outcome.append((path, len(results), len(dials.calls), finished))
+    return tuple(outcome)
+
+
 def rand_case(s: str, r):
     return "".join(c.upper() if r.random() < 0.5 else c.lower() for c in s)
 
@@ -408,13 +605,51 @@ def run(ctx):
         loop.close()
 
 
+class OptWorld:
+    """Options object as the proxy has it (Proxyserver's options loaded) for the real ConnectionHandler."""
+
+    def __init__(self):
+        self.cm = taddons.context(Proxyserver())
+        self.tctx = self.cm.__enter__()
+
+    def close(self):
+        self.cm.__exit__(None, None, None)
+
+
 def _run(ctx, loop):
     p_hist = 0.012 if ctx.tier == "quick" else 0.003
     lkeys = list(LISTEN)
     items = list(itertools.product(range(len(ALL_SPELLINGS)), lkeys, LISTENER_MODES, (True, False), ("tcp", "udp")))
     n_enum = len(items)
-    for i in ctx.cases(n=n_enum + ctx.n_cases):
+    if ctx.tier == "quick":
+        rep_items = list(itertools.product(range(len(ALL_SPELLINGS)), ["all(dual)", "127.0.0.1", "::1", "192.0.2.5"],
+                                           ["regular", "dns", "reverse:quic://example.com"], ("tcp", "udp")))
+    else:
+        rep_items = list(itertools.product(range(len(ALL_SPELLINGS)), lkeys, LISTENER_MODES, ("tcp", "udp")))
+    n_rep = len(rep_items)
+    w = OptWorld()
+    try:
+        _run2(ctx, loop, w, p_hist, lkeys, items, n_enum, rep_items, n_rep)
+    finally:
+        w.close()
+    ctx.extra["enumerated_repeated_attempt_combinations"] = n_rep
+
+
+def _run2(ctx, loop, w, p_hist, lkeys, items, n_enum, rep_items, n_rep):
+    for i in ctx.cases(n=n_enum + n_rep + ctx.n_cases):
         r = ctx.rng
+        if n_enum <= i < n_enum + n_rep:
+            if i % ctx.nworkers != ctx.worker and ctx.only_case is None:
+                continue
+            si, lkey, mname, transport = rep_items[i - n_enum]
+            hclass, host = ALL_SPELLINGS[si]
+            out = repeat_eval(ctx, loop, w, hclass, host, 8080, transport, [(mname, lkey, 8080)])
+            lt = MODES[mname].transport_protocol
+            ctx.case(("repeat", hclass, host if hclass in ("odd", "wildcard", "listen-echo") else "", lkey, lt, transport, out),
+                     nontrivial=lt in (transport, "both") and lkey != "none",
+                     sample={"leg": "repeat", "host": host, "port": 8080, "transport": transport, "listen": lkey, "listener_mode": mname,
+                             "outcome(path,completions,dials,finished)": [list(x) for x in out]} if i % 397 == 11 else None)
+            continue
         if i < n_enum:
             if i % ctx.nworkers != ctx.worker and ctx.only_case is None:
                 continue
@@ -429,7 +664,7 @@ def _run(ctx, loop):
                      sample={"host": host, "port": port, "transport": transport, "listen": lkey, "listener_mode": mname, "refused": refd}
                      if i % 577 == 11 else None)
             continue
-        if r.random() < p_hist or (i - n_enum) < 6:
+        if r.random() < p_hist or 0 <= (i - n_enum - n_rep) < 6:
             try:
                 sig, nontrivial, sample = loop.run_until_complete(asyncio.wait_for(run_history(ctx, r), 15))
             except asyncio.TimeoutError:
